@@ -1,5 +1,6 @@
 BASELINE_OFF = ("cd /repo && GOFLAGS=-mod=mod go test -json -vet=off -count=1 -timeout 25m ./...")
 HOOK_COMMITS = []
+FIX_COMMITS = ["c1b5c0f", "71a23ea", "b7bf76b", "da38f0a"]
 NOTES = ("Every check: bin/check <id> --tier quick|thorough [--replay file]. Exit 0 held (KNOWN-FINDING lines for listed findings), "
          "1 new violation (VIOLATION line), 2 infrastructure failure (never a verdict). Specifications under specs/, conformance harness under harness/ "
          "(Go test binaries built against /repo's working tree with -tags verif), driver under lib/. See DESIGN.md.")
